@@ -26,6 +26,7 @@ FloatTokConst(t) ==
     ELSE LET i == CHOOSE i \in 1..Len(FloatTable) : FloatTable[i][1] = t
          IN K(FltV(FloatTable[i][2], FloatTable[i][3]))
 Idents == {"a", "b", "c", "d", "x", "y", "z", "w", "f", "g", "t", "o", "p", "q", "u", "m", "k1", "k2", "zz",
+           "Y", "N", "a0",
            "min", "max", "CSE", "abs", "math", "log"}
 CmpToks == {"==", "!=", "<", "<=", ">", ">="}
 
